@@ -265,6 +265,12 @@ package cluster
 //@ func (*ClusterNode).SearchPoints$1
 //@   trusted
 //@   modifies results, searchErr
+// the comparator of the score merge: higher hybrid score first
+//@ func (*ClusterNode).SearchPoints$2
+//@   property C17
+//@   pure
+//@   ensures (result < 0) == (a.HybridScore > b.HybridScore || (isNaN(b.HybridScore) && !isNaN(a.HybridScore)))
+
 //@ func (*ClusterNode).SearchPoints
 //@   property C17
 //@   floats order
